@@ -179,7 +179,7 @@ Proof. exact strict_ok_accepts. Qed.
 Print Assumptions C20_tables_agree_accept_equal.
 
 Theorem C20_schema_loader_accept_equal :
-  forall p, accepts (erase_classes schema_tbl) p = accepts (erase_classes loader_tbl) p.
+  forall p, accepts (erase_classes (mech_only schema_tbl)) p = accepts (erase_classes (mech_only loader_tbl)) p.
 Proof. exact schema_loader_accept_equal. Qed.
 Print Assumptions C20_schema_loader_accept_equal.
 
